@@ -45,7 +45,8 @@ def label (s : Sys) : Op → String
       match nextWrite c n with
       | .no => if c.head < m.pos then "w.block-behind-tail" else if m.pos = c.head ∧ c.cycle = m.cyc + 1 then "w.block-full" else "w.block-nofit"
       | .at beg wrap =>
-        if wrap then "w.wrap-reset" else if beg ≠ c.head then "w.wrap" else if c.head < m.pos then "w.fit-before-tail" else "w.fit-to-end"
+        (if wrap then "w.wrap-reset" else if beg ≠ c.head then "w.wrap" else if c.head < m.pos then "w.fit-before-tail" else "w.fit-to-end") ++
+          (if s.pending then "+remap" else "")
   | .wcommit => if s.c.accepting then (if s.c.mapped = s.c.head then "c.empty" else "c.commit") else "c.refused"
   | .wabort => if s.c.accepting then "a.abort" else "a.refused"
   | .accept b => if b then "acc.1" else "acc.0"
